@@ -379,7 +379,7 @@ func c07ShrinkPair(a, b *gen.Spec, bad func(a, b *gen.Spec) bool) (*gen.Spec, *g
 
 func c07N(tier string) int {
 	if tier == "thorough" {
-		return 60000
+		return 300000
 	}
 	return 10000
 }
@@ -538,7 +538,54 @@ func c07Run(c *fw.Ctx, i int) {
 				if par == nil {
 					continue
 				}
-				repl := gedcom.NewNode(target.Tag(), target.Value()+"~changed", target.Pointer())
+				// the change is one of: a suffix, a prefix, one byte at a random
+				// position (same length), the letter case of one byte, the empty
+				// value, another plain tag, another pointer
+				tag, val, ptr := target.Tag(), target.Value(), target.Pointer()
+				how := r.Intn(8)
+				c.Class("change", []string{"suffix", "prefix", "one-byte", "case", "empty", "tag", "pointer", "last-byte"}[how])
+				switch how {
+				case 0:
+					val += "~changed"
+				case 1:
+					val = "changed~" + val
+				case 2, 3, 7:
+					if val == "" {
+						val = "x"
+						break
+					}
+					b := []byte(val)
+					k := r.Intn(len(b))
+					if how == 7 {
+						k = len(b) - 1
+					}
+					switch {
+					case how == 3 && b[k] >= 'a' && b[k] <= 'z':
+						b[k] -= 32
+					case how == 3 && b[k] >= 'A' && b[k] <= 'Z':
+						b[k] += 32
+					case b[k] == 'q':
+						b[k] = 'r'
+					default:
+						b[k] = 'q'
+					}
+					val = string(b)
+				case 4:
+					if val == "" {
+						val = "x"
+					} else {
+						val = ""
+					}
+				case 5:
+					if tag.Tag() == "_CHG" {
+						tag = gedcom.TagFromString("_CHH")
+					} else {
+						tag = gedcom.TagFromString("_CHG")
+					}
+				case 6:
+					ptr += "Z9"
+				}
+				repl := gedcom.NewNode(tag, val, ptr)
 				repl.SetNodes(target.Nodes())
 				kids := append(gedcom.Nodes{}, par.Nodes()...)
 				for q := range kids {
@@ -692,7 +739,6 @@ func c07Respell(r *fw.Rand, s *gen.Spec) {
 		d.Value = c07UIDClasses[r.Intn(len(c07UIDClasses))].value
 	}
 }
-
 
 // c07NonTransitiveKinds: kinds of node triples x~y, y~z but not x~z under the
 // nodes' own Equals (greedy multiset matching is only sound for an equivalence).
